@@ -200,6 +200,9 @@ inline unsigned red(unsigned rule, const A&... a) {
 inline unsigned term_value_of(unsigned term, std::string_view sv) {
     return 1000003u * (term + 1) + 31u * (sv.size() ? (unsigned)(unsigned char)sv[0] : 0u) + 7u * (unsigned)sv.size();
 }
+// generated-lexer terms: turn the library's term_value<char / string_view> into the harness' unsigned value, keeping the source point
+inline ctpg::term_value<unsigned> tv(unsigned term, const ctpg::term_value<char>& t) { char c = t.get_value(); return ctpg::term_value<unsigned>(term_value_of(term, std::string_view(&c, 1)), t.get_sp()); }
+inline ctpg::term_value<unsigned> tv(unsigned term, const ctpg::term_value<std::string_view>& t) { return ctpg::term_value<unsigned>(term_value_of(term, t.get_value()), t.get_sp()); }
 inline void flush(uint32_t* out) {
     out[O_NRED] = hv_S.nred; out[O_NTERM] = hv_S.nterm; out[O_FLAGS] |= hv_S.flags;
     for (unsigned i = 0; i < MAXRED; ++i) out[O_RED0 + i] = hv_S.red[i];
